@@ -1118,6 +1118,23 @@ func (c *Context) Pow(d, x, y *Decimal) (Condition, error) {
 		return 0, nil
 	}
 
+	if y.Form == Infinite {
+		// x is finite and non-zero: the result is the limit of x**n.
+		if xs < 0 {
+			d.Set(decimalNaN)
+			return c.goError(InvalidOperation)
+		}
+		switch cmp := x.Cmp(decimalOne); {
+		case cmp == 0:
+			d.Set(decimalOne)
+		case (cmp < 0) != y.Negative:
+			d.Set(decimalZero)
+		default:
+			d.Set(decimalInfinity)
+		}
+		return 0, nil
+	}
+
 	if xs < 0 && !yIsInt {
 		d.Set(decimalNaN)
 		return c.goError(InvalidOperation)
